@@ -1,4 +1,302 @@
-import UncModel.Unicode
+import UncModel.Lemmas.UnicodeLemmas
+/-!
+# C09 — text is never silently altered by the Unicode layer
+
+Property theorems about the model of `src/unicode.cpp` (`UncModel/Unicode.lean`).
+The predicates `BytesOK`, `CpsInt`, `IsScalar`, `Scalars` are defined in
+`UncModel/Lemmas/UnicodeLemmas.lean`; all proofs are there too, this file only
+states the properties and instantiates each of them on a concrete value.
+-/
+
 namespace Unc
-theorem C09_placeholder : encodeUtf8 0x41 = [0x41] := by decide
+
+/-! ## 1. UTF-8: decode ∘ encode = id -/
+
+theorem C09_utf8_decode_encode (cps : List CP) (h : CpsInt cps) (ov : Bool) :
+    decodeUtf8Body ov (cps.flatMap encodeUtf8) = some cps :=
+  decodeUtf8Body_flatMap_encode ov cps h
+
+example : decodeUtf8Body true ([0x41, 0x20AC, 0x1F600].flatMap encodeUtf8)
+    = some [0x41, 0x20AC, 0x1F600] :=
+  C09_utf8_decode_encode [0x41, 0x20AC, 0x1F600] (by unfold CpsInt; decide) true
+
+/-! ## 2. UTF-8: encode ∘ decode = id (needs the overlong check) -/
+
+theorem C09_utf8_encode_decode (bs : List Byte) (cps : List CP) (_hb : BytesOK bs)
+    (h : decodeUtf8Body true bs = some cps) :
+    cps.flatMap encodeUtf8 = bs :=
+  flatMap_encode_of_decodeUtf8Body bs.length bs cps (Nat.le_refl _) h
+
+example : ([0x41, 0x20AC, 0x1F600] : List CP).flatMap encodeUtf8
+    = [0x41, 0xE2, 0x82, 0xAC, 0xF0, 0x9F, 0x98, 0x80] :=
+  C09_utf8_encode_decode [0x41, 0xE2, 0x82, 0xAC, 0xF0, 0x9F, 0x98, 0x80] [0x41, 0x20AC, 0x1F600]
+    (by unfold BytesOK; decide)
+    (C09_utf8_decode_encode [0x41, 0x20AC, 0x1F600] (by unfold CpsInt; decide) true)
+
+/-- without the overlong check (the historical behaviour) a file can decode and be written
+    back with different bytes: `C1 81` is read as `A` and written as `41` -/
+theorem C09_utf8_overlong_altered_without_check :
+    ∃ (bs : List Byte) (cps : List CP),
+      BytesOK bs ∧ decodeUtf8Body false bs = some cps ∧ cps.flatMap encodeUtf8 ≠ bs :=
+  ⟨[0xC1, 0x81], [0x41], by unfold BytesOK; decide, decodeUtf8Body_overlong_example, by decide⟩
+
+/-! ## 3. UTF-16: decode ∘ encode = id on scalar values -/
+
+theorem C09_utf16_decode_encode (be : Bool) (cps : List CP) (h : Scalars cps) :
+    decodeUtf16Body be (cps.flatMap (writeUtf16 be)) = some cps :=
+  decodeUtf16Body_flatMap_write be cps h
+
+example : decodeUtf16Body false ([0x41, 0x20AC, 0x1F600].flatMap (writeUtf16 false))
+    = some [0x41, 0x20AC, 0x1F600] :=
+  C09_utf16_decode_encode false [0x41, 0x20AC, 0x1F600] (by unfold Scalars IsScalar; decide)
+
+/-! ## 4. UTF-16: encode ∘ decode = id, and only scalar values are produced -/
+
+theorem C09_utf16_encode_decode (be : Bool) (bs : List Byte) (cps : List CP) (hb : BytesOK bs)
+    (h : decodeUtf16Body be bs = some cps) :
+    cps.flatMap (writeUtf16 be) = bs ∧ Scalars cps :=
+  flatMap_write_of_decodeUtf16Body be bs.length bs cps (Nat.le_refl _) hb h
+
+example : ([0x41, 0x20AC, 0x1F600] : List CP).flatMap (writeUtf16 true)
+      = [0x00, 0x41, 0x20, 0xAC, 0xD8, 0x3D, 0xDE, 0x00] ∧ Scalars [0x41, 0x20AC, 0x1F600] :=
+  C09_utf16_encode_decode true [0x00, 0x41, 0x20, 0xAC, 0xD8, 0x3D, 0xDE, 0x00]
+    [0x41, 0x20AC, 0x1F600] (by unfold BytesOK; decide)
+    (C09_utf16_decode_encode true [0x41, 0x20AC, 0x1F600] (by unfold Scalars IsScalar; decide))
+
+/-! ## 5. UTF-16: lone surrogates are rejected -/
+
+/-- a low surrogate where a character should start -/
+theorem C09_utf16_rejects_lone_surrogate (be : Bool) (hi lo : Byte) (rest : List Byte)
+    (h1 : 0xDC00 ≤ word be hi lo) (h2 : word be hi lo < 0xE000) :
+    decodeUtf16Body be (hi :: lo :: rest) = none :=
+  decodeUtf16Body_low_first be hi lo rest h1 h2
+
+example : decodeUtf16Body true [0xDC, 0x00, 0x00, 0x41] = none :=
+  C09_utf16_rejects_lone_surrogate true 0xDC 0x00 [0x00, 0x41] (by decide) (by decide)
+
+/-- a high surrogate with less than one word after it -/
+theorem C09_utf16_rejects_lone_high_at_end (be : Bool) (hi lo : Byte) (rest : List Byte)
+    (h1 : 0xD800 ≤ word be hi lo) (h2 : word be hi lo < 0xDC00) (hr : rest.length < 2) :
+    decodeUtf16Body be (hi :: lo :: rest) = none :=
+  decodeUtf16Body_high_end be hi lo rest (by omega) hr
+
+example : decodeUtf16Body false [0x3D, 0xD8] = none :=
+  C09_utf16_rejects_lone_high_at_end false 0x3D 0xD8 [] (by decide) (by decide) (by decide)
+
+/-- a high surrogate followed by a word that is not a low surrogate -/
+theorem C09_utf16_rejects_lone_high_then_nonlow (be : Bool) (hi lo c0 c1 : Byte) (rest : List Byte)
+    (h1 : 0xD800 ≤ word be hi lo) (h2 : word be hi lo < 0xDC00)
+    (h3 : ¬ (0xDC00 ≤ word be c0 c1 ∧ word be c0 c1 < 0xE000)) :
+    decodeUtf16Body be (hi :: lo :: c0 :: c1 :: rest) = none :=
+  decodeUtf16Body_high_nonlow be hi lo c0 c1 rest (by omega) (by omega)
+
+example : decodeUtf16Body false [0x3D, 0xD8, 0x41, 0x00] = none :=
+  C09_utf16_rejects_lone_high_then_nonlow false 0x3D 0xD8 0x41 0x00 [] (by decide) (by decide)
+    (by decide)
+
+/-! ## 6. Identity rewrite: reading then writing with default options reproduces the bytes -/
+
+theorem C09_identity_rewrite (bs : List Byte) (hb : BytesOK bs) (e : Enc) (bom : Bool)
+    (cps : List CP) (h : decodeUnicode true bs = some (e, bom, cps)) :
+    emit (encPolicy {} e bom).1 (encPolicy {} e bom).2 cps
+      = (if (e = .utf16le ∨ e = .utf16be) ∧ bom = false then writeBom e else []) ++ bs :=
+  identity_rewrite bs hb e bom cps h
+
+example : emit (encPolicy {} .utf8 true).1 (encPolicy {} .utf8 true).2 [0x41, 0x20AC, 0x1F600]
+    = [] ++ [0xEF, 0xBB, 0xBF, 0x41, 0xE2, 0x82, 0xAC, 0xF0, 0x9F, 0x98, 0x80] :=
+  C09_identity_rewrite [0xEF, 0xBB, 0xBF, 0x41, 0xE2, 0x82, 0xAC, 0xF0, 0x9F, 0x98, 0x80]
+    (by unfold BytesOK; decide) .utf8 true [0x41, 0x20AC, 0x1F600]
+    (detect_utf8bom true [0x41, 0x20AC, 0x1F600] (by unfold CpsInt; decide))
+
+/-! ## 7. The encoding / BOM policy table -/
+
+theorem C09_bom_policy_table (o : EncOpts) (e : Enc) (bom : Bool) :
+    (encPolicy o e bom).1 = (if o.utf8Force ∨ (e = .byte ∧ o.utf8Byte) then Enc.utf8 else e) ∧
+    (encPolicy o e bom).2 =
+      (match (encPolicy o e bom).1 with
+       | .utf16le => true
+       | .utf16be => true
+       | .utf8 => (match o.utf8Bom with | .remove => false | .ignore => bom | _ => true)
+       | _ => bom) :=
+  bom_policy_table o e bom
+
+example : encPolicy { utf8Bom := .remove, utf8Byte := true } .byte true = (.utf8, false) := by
+  have h := C09_bom_policy_table { utf8Bom := .remove, utf8Byte := true } .byte true
+  exact Prod.ext h.1 h.2
+
+/-! ## 8. Detection round trips -/
+
+/-- a. pure ASCII: bytes = code points -/
+theorem C09_detect_roundtrip_ascii (ov : Bool) (cps : List CP)
+    (hlt : ∀ c ∈ cps, c < 128) (h0 : ∀ c ∈ cps, c ≠ 0) :
+    decodeUnicode ov cps = some (.ascii, false, cps) :=
+  detect_ascii ov cps hlt h0
+
+example : decodeUnicode true [0x69, 0x6E, 0x74, 0x0A] = some (.ascii, false, [0x69, 0x6E, 0x74, 0x0A]) :=
+  C09_detect_roundtrip_ascii true [0x69, 0x6E, 0x74, 0x0A] (by decide) (by decide)
+
+/-- b. UTF-8 with BOM -/
+theorem C09_detect_roundtrip_utf8bom (ov : Bool) (cps : List CP) (hs : Scalars cps) :
+    decodeUnicode ov ([0xef, 0xbb, 0xbf] ++ cps.flatMap encodeUtf8) = some (.utf8, true, cps) :=
+  detect_utf8bom ov cps hs.cpsInt
+
+example : decodeUnicode true ([0xef, 0xbb, 0xbf] ++ [0x41, 0x20AC, 0x1F600].flatMap encodeUtf8)
+    = some (.utf8, true, [0x41, 0x20AC, 0x1F600]) :=
+  C09_detect_roundtrip_utf8bom true [0x41, 0x20AC, 0x1F600] (by unfold Scalars IsScalar; decide)
+
+/- c. UTF-8 without BOM.  The statement as requested,
+
+     Scalars cps → (∀ c ∈ cps, c ≠ 0) → cps ≠ [] → (∃ c ∈ cps, 128 ≤ c) →
+       decodeUnicode ov (cps.flatMap encodeUtf8) = some (.utf8, false, cps)
+
+   is FALSE: if the text starts with U+FEFF its encoding starts with `EF BB BF`, which
+   `decode_bom` takes for a BOM, so the result is `(.utf8, true, cps.tail)`.  The minimal extra
+   hypothesis is `cps.head? ≠ some 0xFEFF`. -/
+theorem C09_detect_roundtrip_utf8_partial (ov : Bool) (cps : List CP) (hs : Scalars cps)
+    (h0 : ∀ c ∈ cps, c ≠ 0) (hna : ∃ c ∈ cps, 128 ≤ c) (hhead : cps.head? ≠ some 0xFEFF) :
+    decodeUnicode ov (cps.flatMap encodeUtf8) = some (.utf8, false, cps) :=
+  detect_utf8 ov cps hs.cpsInt h0 hna hhead
+
+example : decodeUnicode true ([0x41, 0x20AC, 0x1F600].flatMap encodeUtf8)
+    = some (.utf8, false, [0x41, 0x20AC, 0x1F600]) :=
+  C09_detect_roundtrip_utf8_partial true [0x41, 0x20AC, 0x1F600]
+    (by unfold Scalars IsScalar; decide) (by decide) ⟨0x20AC, by decide, by decide⟩ (by decide)
+
+/-- what happens instead when the text starts with U+FEFF: it is consumed as a BOM -/
+theorem C09_detect_utf8_leading_feff (ov : Bool) (cps : List CP) (hs : Scalars cps) :
+    decodeUnicode ov ((0xFEFF :: cps).flatMap encodeUtf8) = some (.utf8, true, cps) :=
+  detect_utf8_leading_feff ov cps hs.cpsInt
+
+/-- the counterexample to the unrestricted statement c: `[U+FEFF, 'A']` satisfies all of its
+    hypotheses but does not come back -/
+theorem C09_detect_roundtrip_utf8_counterexample :
+    Scalars [0xFEFF, 0x41] ∧ (∀ c ∈ [0xFEFF, 0x41], c ≠ 0) ∧ [0xFEFF, 0x41] ≠ ([] : List CP) ∧
+    (∃ c ∈ [0xFEFF, 0x41], 128 ≤ c) ∧
+    decodeUnicode true ([0xFEFF, 0x41].flatMap encodeUtf8) = some (.utf8, true, [0x41]) ∧
+    decodeUnicode true ([0xFEFF, 0x41].flatMap encodeUtf8) ≠ some (.utf8, false, [0xFEFF, 0x41]) := by
+  have hd := C09_detect_utf8_leading_feff true [0x41] (by unfold Scalars IsScalar; decide)
+  refine ⟨by unfold Scalars IsScalar; decide, by decide, by decide, ⟨0xFEFF, by decide, by decide⟩,
+    hd, ?_⟩
+  rw [hd]; decide
+
+/-- d. UTF-16 LE with BOM -/
+theorem C09_detect_roundtrip_utf16le (ov : Bool) (cps : List CP) (hs : Scalars cps) :
+    decodeUnicode ov (writeBom .utf16le ++ cps.flatMap (writeUtf16 false))
+      = some (.utf16le, true, cps) :=
+  detect_utf16le ov cps hs
+
+example : decodeUnicode true (writeBom .utf16le ++ [0x41, 0x20AC, 0x1F600].flatMap (writeUtf16 false))
+    = some (.utf16le, true, [0x41, 0x20AC, 0x1F600]) :=
+  C09_detect_roundtrip_utf16le true [0x41, 0x20AC, 0x1F600] (by unfold Scalars IsScalar; decide)
+
+/-- d. UTF-16 BE with BOM -/
+theorem C09_detect_roundtrip_utf16be (ov : Bool) (cps : List CP) (hs : Scalars cps) :
+    decodeUnicode ov (writeBom .utf16be ++ cps.flatMap (writeUtf16 true))
+      = some (.utf16be, true, cps) :=
+  detect_utf16be ov cps hs
+
+example : decodeUnicode true (writeBom .utf16be ++ [0x41, 0x20AC, 0x1F600].flatMap (writeUtf16 true))
+    = some (.utf16be, true, [0x41, 0x20AC, 0x1F600]) :=
+  C09_detect_roundtrip_utf16be true [0x41, 0x20AC, 0x1F600] (by unfold Scalars IsScalar; decide)
+
+/-- items a–d together, under the common hypotheses of item 8 (c with the extra hypothesis) -/
+theorem C09_detect_roundtrip_partial (ov : Bool) (cps : List CP) (hs : Scalars cps)
+    (h0 : ∀ c ∈ cps, c ≠ 0) (_hne : cps ≠ []) :
+    ((∀ c ∈ cps, c < 128) → decodeUnicode ov cps = some (.ascii, false, cps)) ∧
+    decodeUnicode ov ([0xef, 0xbb, 0xbf] ++ cps.flatMap encodeUtf8) = some (.utf8, true, cps) ∧
+    ((∃ c ∈ cps, 128 ≤ c) → cps.head? ≠ some 0xFEFF →
+      decodeUnicode ov (cps.flatMap encodeUtf8) = some (.utf8, false, cps)) ∧
+    decodeUnicode ov (writeBom .utf16le ++ cps.flatMap (writeUtf16 false))
+      = some (.utf16le, true, cps) ∧
+    decodeUnicode ov (writeBom .utf16be ++ cps.flatMap (writeUtf16 true))
+      = some (.utf16be, true, cps) :=
+  ⟨fun hlt => C09_detect_roundtrip_ascii ov cps hlt h0,
+   C09_detect_roundtrip_utf8bom ov cps hs,
+   fun hna hhead => C09_detect_roundtrip_utf8_partial ov cps hs h0 hna hhead,
+   C09_detect_roundtrip_utf16le ov cps hs,
+   C09_detect_roundtrip_utf16be ov cps hs⟩
+
+example : decodeUnicode false ([0xef, 0xbb, 0xbf] ++ [0xE9, 0x0A].flatMap encodeUtf8)
+    = some (.utf8, true, [0xE9, 0x0A]) :=
+  (C09_detect_roundtrip_partial false [0xE9, 0x0A] (by unfold Scalars IsScalar; decide) (by decide)
+    (by decide)).2.1
+
+/-! ## 9. Formatting commutes with transcoding -/
+
+/-- the four on-disk forms of item 8 that carry a BOM or are UTF-8 -/
+inductive FileEnc | utf8bom | utf8 | utf16le | utf16be
+deriving DecidableEq, Repr
+
+def encodeAs : FileEnc → List CP → List Byte
+  | .utf8bom, cps => [0xef, 0xbb, 0xbf] ++ cps.flatMap encodeUtf8
+  | .utf8, cps => cps.flatMap encodeUtf8
+  | .utf16le, cps => writeBom .utf16le ++ cps.flatMap (writeUtf16 false)
+  | .utf16be, cps => writeBom .utf16be ++ cps.flatMap (writeUtf16 true)
+
+def encOf : FileEnc → Enc
+  | .utf8bom => .utf8 | .utf8 => .utf8 | .utf16le => .utf16le | .utf16be => .utf16be
+
+def bomOf : FileEnc → Bool
+  | .utf8 => false | _ => true
+
+/- The statement as requested (for `k = .utf8` only `∃ c ∈ cps, 128 ≤ c` extra) is FALSE for
+   the same reason as 8c: counterexample `k = .utf8`, `cps = [0xFEFF, 0x41]`, for which
+   `F` receives `[0x41]` and the writer is configured with `bom = true`.
+   Extra hypothesis: `cps.head? ≠ some 0xFEFF` (only needed for `k = .utf8`). -/
+theorem C09_commute_partial (ov : Bool) (o : EncOpts) (F : List CP → List CP) (k : FileEnc)
+    (cps : List CP) (hs : Scalars cps) (hz : noEmbeddedZero cps = true)
+    (hk : k = .utf8 → (∀ c ∈ cps, c ≠ 0) ∧ (∃ c ∈ cps, 128 ≤ c) ∧ cps.head? ≠ some 0xFEFF) :
+    runBytes ov o F (encodeAs k cps)
+      = some (emit (encPolicy o (encOf k) (bomOf k)).1 (encPolicy o (encOf k) (bomOf k)).2 (F cps)) := by
+  have hd : decodeUnicode ov (encodeAs k cps) = some (encOf k, bomOf k, cps) := by
+    cases k with
+    | utf8bom => exact C09_detect_roundtrip_utf8bom ov cps hs
+    | utf8 =>
+      obtain ⟨h0, hna, hhead⟩ := hk rfl
+      exact C09_detect_roundtrip_utf8_partial ov cps hs h0 hna hhead
+    | utf16le => exact C09_detect_roundtrip_utf16le ov cps hs
+    | utf16be => exact C09_detect_roundtrip_utf16be ov cps hs
+  unfold runBytes
+  rw [hd]
+  simp only [hz, if_true]
+
+example (F : List CP → List CP) :
+    runBytes true { utf8Force := true } F (encodeAs .utf16le [0x41, 0x20AC, 0x1F600])
+      = some (emit .utf8 true (F [0x41, 0x20AC, 0x1F600])) :=
+  C09_commute_partial true { utf8Force := true } F .utf16le [0x41, 0x20AC, 0x1F600]
+    (by unfold Scalars IsScalar; decide) (by decide) (fun h => by cases h)
+
+example (F : List CP → List CP) :
+    runBytes true {} F (encodeAs .utf8 [0x41, 0x20AC, 0x1F600])
+      = some (emit .utf8 false (F [0x41, 0x20AC, 0x1F600])) :=
+  C09_commute_partial true {} F .utf8 [0x41, 0x20AC, 0x1F600]
+    (by unfold Scalars IsScalar; decide) (by decide)
+    (fun _ => ⟨by decide, ⟨0x20AC, by decide, by decide⟩, by decide⟩)
+
+/-- the counterexample to the unrestricted statement: the formatter is handed `[0x41]`, not
+    `[0xFEFF, 0x41]`, and the output gets a BOM -/
+theorem C09_commute_counterexample (F : List CP → List CP) :
+    runBytes true {} F (encodeAs .utf8 [0xFEFF, 0x41]) = some (emit .utf8 true (F [0x41])) := by
+  unfold runBytes
+  show (match decodeUnicode true ([0xFEFF, 0x41].flatMap encodeUtf8) with
+    | none => none
+    | some (e, bom, cps) =>
+      if noEmbeddedZero cps then some (emit (encPolicy {} e bom).1 (encPolicy {} e bom).2 (F cps))
+      else none) = _
+  rw [C09_detect_roundtrip_utf8_counterexample.2.2.2.2.1]
+  rfl
+
+/-- the ASCII case -/
+theorem C09_commute_ascii (ov : Bool) (o : EncOpts) (F : List CP → List CP) (cps : List CP)
+    (hlt : ∀ c ∈ cps, c < 128) (h0 : ∀ c ∈ cps, c ≠ 0) :
+    runBytes ov o F cps
+      = some (emit (encPolicy o .ascii false).1 (encPolicy o .ascii false).2 (F cps)) := by
+  unfold runBytes
+  rw [C09_detect_roundtrip_ascii ov cps hlt h0]
+  simp only [noEmbeddedZero_of_ne_zero cps h0, if_true]
+
+example (F : List CP → List CP) :
+    runBytes true {} F [0x69, 0x6E, 0x74, 0x0A] = some (emit .ascii false (F [0x69, 0x6E, 0x74, 0x0A])) :=
+  C09_commute_ascii true {} F [0x69, 0x6E, 0x74, 0x0A] (by decide) (by decide)
+
 end Unc
